@@ -854,7 +854,8 @@ def _broadcast_shape_dims(
                 # If resolved is a concrete non-1 dim, keep it.
                 continue
             if _dim_token(resolved) != _dim_token(dim):
-                return None
+                # Two different symbols: nothing is known about the extent.
+                resolved = None
         result.append(int(resolved) if isinstance(resolved, np.integer) else resolved)
 
     return tuple(result)
